@@ -156,9 +156,6 @@ def cmp_totals(scn, res, m):
         return []
     t = res.totals()
     exp = tuple(int(x.split("=")[1]) for x in m["out"][:3])
-    if scn.callback == "unspentcsvdump":
-        # the third total of unspentcsvdump counts address-bearing outputs inserted, not the outputs: compare the first two
-        return [] if t is not None and t[:2] == exp[:2] else [("totals", t, exp)]
     return [] if t == exp else [("totals", t, exp)]
 
 
